@@ -295,7 +295,12 @@ def run(report, index, tier):
     r.check(sdfa.accepts_str('"\\u0041"'), 'unicode escape lexed',
             '"\\u0041"', 'the lexer rejects \\uXXXX')
     for key, lexeme in (('unicode escape', '"\\u0041\\u00e9"'),
-                        ('surrogate pair', '"\\ud83d\\ude00"')):
+                        ('surrogate pair', '"\\ud83d\\ude00"'),
+                        ('lone high surrogate', '"\\ud800"'),
+                        ('lone low surrogate inside text', '"a\\udc00b"'),
+                        ('surrogates in reverse order',
+                         '"\\ude00\\ud83d"'),
+                        ('high surrogate before a letter', '"\\ud83dx"')):
         got = extract('String', 'String', lexeme)
         want = _json.loads(lexeme)
         r.check(same(got, want), key, 'JSON string %s' % lexeme,
